@@ -9,16 +9,16 @@ open XcmModel
 
 inductive Op where
   | hs (h : HAns)
-  | send (buf : Bytes) (h : HAns) (w : WAns)
-  | recv (cap : Nat) (h : HAns) (r : RAns)
-  | fin (h : HAns) (lower : Option Nat)
+  | send (buf : Bytes) (h : HAns) (ws : List WAns)
+  | recv (cap : Nat) (h : HAns) (ws : List WAns) (r : RAns)
+  | fin (h : HAns) (ws : List WAns) (lower : Option Nat)
   deriving Repr
 
 def step (s : St) : Op → St
   | .hs h => tryFinishHandshake s h
-  | .send b h w => (send s b h w).1
-  | .recv c h r => (receive s c h r).1
-  | .fin h l => (finish s h l).1
+  | .send b h ws => (send s b h ws).1
+  | .recv c h ws r => (receive s c h ws r).1
+  | .fin h ws l => (finish s h ws l).1
 
 def run (s : St) (ops : List Op) : St := ops.foldl step s
 
@@ -30,9 +30,11 @@ def Terminal (s : St) : Prop := s.state = .closed ∨ ∃ e, s.state = .bad e
 /-- what holds in every reachable state -/
 structure Inv (s : St) : Prop where
   readyVerified : s.state = .ready → Verified s
-  ioVerified : (s.written ≠ [] ∨ s.delivered ≠ []) → Verified s
-  hsOnce : s.state = .handshaking → s.handshakeDone = false ∧ s.written = [] ∧ s.delivered = []
-  cntW : s.cnt.fromApp = s.written.length ∧ s.cnt.toLower = s.written.length
+  ioVerified : (s.written ≠ [] ∨ s.delivered ≠ [] ∨ s.accepted ≠ []) → Verified s
+  hsOnce : s.state = .handshaking → s.handshakeDone = false ∧ s.written = [] ∧ s.delivered = [] ∧ s.pend = [] ∧ s.accepted = []
+  /-- every byte XCM has accepted was either handed to OpenSSL or is retained, in order -/
+  acc : s.accepted = s.written ++ s.pend
+  cntW : s.cnt.fromApp = s.accepted.length ∧ s.cnt.toLower = s.written.length
   cntD : s.cnt.toApp = s.delivered.length ∧ s.cnt.fromLower = s.delivered.length
 
 /-- `s'` differs from `s` only in the wait bookkeeping and possibly by having become terminal -/
@@ -42,58 +44,70 @@ structure Frame (s s' : St) : Prop where
   verdict : s'.verdict = s.verdict
   written : s'.written = s.written
   delivered : s'.delivered = s.delivered
+  pend : s'.pend = s.pend
+  accepted : s'.accepted = s.accepted
   cnt : s'.cnt = s.cnt
   state : s'.state = s.state ∨ s'.state = .closed ∨ ∃ x, s'.state = .bad x
 
-theorem Frame.refl (s : St) : Frame s s := ⟨rfl, rfl, rfl, rfl, rfl, rfl, Or.inl rfl⟩
+theorem Frame.refl (s : St) : Frame s s := ⟨rfl, rfl, rfl, rfl, rfl, rfl, rfl, rfl, Or.inl rfl⟩
 
 theorem Frame.trans {a b c : St} (h1 : Frame a b) (h2 : Frame b c) : Frame a c := by
   refine ⟨h2.auth.trans h1.auth, h2.hd.trans h1.hd, h2.verdict.trans h1.verdict, h2.written.trans h1.written,
-    h2.delivered.trans h1.delivered, h2.cnt.trans h1.cnt, ?_⟩
+    h2.delivered.trans h1.delivered, h2.pend.trans h1.pend, h2.accepted.trans h1.accepted, h2.cnt.trans h1.cnt, ?_⟩
   rcases h2.state with h | h | h
   · rw [h]; exact h1.state
   · exact Or.inr (Or.inl h)
   · exact Or.inr (Or.inr h)
 
 theorem frame_reset (s : St) : Frame s { s with sslCondition := 0, sslWants := 0 } :=
-  ⟨rfl, rfl, rfl, rfl, rfl, rfl, Or.inl rfl⟩
+  ⟨rfl, rfl, rfl, rfl, rfl, rfl, rfl, rfl, Or.inl rfl⟩
+
+theorem frame_pendWants (s : St) (w : Nat) : Frame s { s with pendWants := w } :=
+  ⟨rfl, rfl, rfl, rfl, rfl, rfl, rfl, rfl, Or.inl rfl⟩
 
 /-- `process_ssl_event` never makes a connection ready and never touches data or the verdict -/
 theorem frame_pse (s : St) (c : Nat) (e : SslEv) : Frame s (processSslEvent s c e) := by
   unfold processSslEvent
   cases e with
-  | wantRead => exact ⟨rfl, rfl, rfl, rfl, rfl, rfl, Or.inl rfl⟩
-  | wantWrite => exact ⟨rfl, rfl, rfl, rfl, rfl, rfl, Or.inl rfl⟩
-  | zeroReturn => exact ⟨rfl, rfl, rfl, rfl, rfl, rfl, Or.inr (Or.inl rfl)⟩
-  | sslErr => exact ⟨rfl, rfl, rfl, rfl, rfl, rfl, Or.inr (Or.inr ⟨_, rfl⟩)⟩
+  | wantRead => exact ⟨rfl, rfl, rfl, rfl, rfl, rfl, rfl, rfl, Or.inl rfl⟩
+  | wantWrite => exact ⟨rfl, rfl, rfl, rfl, rfl, rfl, rfl, rfl, Or.inl rfl⟩
+  | zeroReturn => exact ⟨rfl, rfl, rfl, rfl, rfl, rfl, rfl, rfl, Or.inr (Or.inl rfl)⟩
+  | sslErr => exact ⟨rfl, rfl, rfl, rfl, rfl, rfl, rfl, rfl, Or.inr (Or.inr ⟨_, rfl⟩)⟩
   | syscall errno queued =>
     simp only
     split
-    · exact ⟨rfl, rfl, rfl, rfl, rfl, rfl, Or.inr (Or.inr ⟨_, rfl⟩)⟩
+    · exact ⟨rfl, rfl, rfl, rfl, rfl, rfl, rfl, rfl, Or.inr (Or.inr ⟨_, rfl⟩)⟩
     split
-    · exact ⟨rfl, rfl, rfl, rfl, rfl, rfl, Or.inl rfl⟩
+    · exact ⟨rfl, rfl, rfl, rfl, rfl, rfl, rfl, rfl, Or.inl rfl⟩
     split
-    · exact ⟨rfl, rfl, rfl, rfl, rfl, rfl, Or.inl rfl⟩
+    · exact ⟨rfl, rfl, rfl, rfl, rfl, rfl, rfl, rfl, Or.inl rfl⟩
     split
-    · exact ⟨rfl, rfl, rfl, rfl, rfl, rfl, Or.inr (Or.inl rfl)⟩
-    · exact ⟨rfl, rfl, rfl, rfl, rfl, rfl, Or.inr (Or.inr ⟨_, rfl⟩)⟩
+    · exact ⟨rfl, rfl, rfl, rfl, rfl, rfl, rfl, rfl, Or.inr (Or.inl rfl)⟩
+    · exact ⟨rfl, rfl, rfl, rfl, rfl, rfl, rfl, rfl, Or.inr (Or.inr ⟨_, rfl⟩)⟩
+
+theorem verified_of_fields {s s' : St} (ha : s'.auth = s.auth) (hd : s'.handshakeDone = s.handshakeDone)
+    (hv : s'.verdict = s.verdict) (h : Verified s) : Verified s' :=
+  ⟨hd.trans h.1, fun x => hv.trans (h.2 (ha ▸ x))⟩
+
+theorem verified_frame {s s' : St} (f : Frame s s') (h : Verified s) : Verified s' :=
+  verified_of_fields f.auth f.hd f.verdict h
 
 theorem inv_frame {s s' : St} (h : Inv s) (f : Frame s s') : Inv s' := by
-  have hv : Verified s → Verified s' := by
-    intro ⟨a, b⟩; exact ⟨f.hd.trans a, fun x => f.verdict.trans (b (f.auth ▸ x))⟩
+  have hv : Verified s → Verified s' := verified_frame f
   constructor
   · intro hr
     rcases f.state with st | st | ⟨x, st⟩
     · exact hv (h.readyVerified (st ▸ hr))
     · rw [st] at hr; cases hr
     · rw [st] at hr; cases hr
-  · intro hio; rw [f.written, f.delivered] at hio; exact hv (h.ioVerified hio)
+  · intro hio; rw [f.written, f.delivered, f.accepted] at hio; exact hv (h.ioVerified hio)
   · intro hh
     rcases f.state with st | st | ⟨x, st⟩
-    · rw [f.hd, f.written, f.delivered]; exact h.hsOnce (st ▸ hh)
+    · rw [f.hd, f.written, f.delivered, f.pend, f.accepted]; exact h.hsOnce (st ▸ hh)
     · rw [st] at hh; cases hh
     · rw [st] at hh; cases hh
-  · rw [f.cnt, f.written]; exact h.cntW
+  · rw [f.accepted, f.written, f.pend]; exact h.acc
+  · rw [f.cnt, f.accepted, f.written]; exact h.cntW
   · rw [f.cnt, f.delivered]; exact h.cntD
 
 theorem init_inv (a : Bool) : Inv { auth := a } := by
@@ -102,7 +116,7 @@ theorem init_inv (a : Bool) : Inv { auth := a } := by
 theorem tfh_inv {s : St} (h : Inv s) (a : HAns) : Inv (tryFinishHandshake s a) := by
   unfold tryFinishHandshake
   by_cases hst : s.state = .handshaking
-  · obtain ⟨hd, hw, hdl⟩ := h.hsOnce hst
+  · obtain ⟨hd, hw, hdl, hp, hac⟩ := h.hsOnce hst
     rw [if_neg (by simp [hst])]
     cases a with
     | ev e => exact inv_frame h ((frame_reset s).trans (frame_pse _ _ _))
@@ -117,10 +131,125 @@ theorem tfh_inv {s : St} (h : Inv s) (a : HAns) : Inv (tryFinishHandshake s a) :
         constructor <;> simp_all [Verified]
   · rw [if_pos (by simpa using hst)]; exact h
 
-theorem verified_frame {s s' : St} (f : Frame s s') (h : Verified s) : Verified s' :=
-  ⟨f.hd.trans h.1, fun x => f.verdict.trans (h.2 (f.auth ▸ x))⟩
+/-- the relation between a state and what flushing the retained bytes makes of it -/
+structure Core (s s' : St) : Prop where
+  auth : s'.auth = s.auth
+  hd : s'.handshakeDone = s.handshakeDone
+  verdict : s'.verdict = s.verdict
+  delivered : s'.delivered = s.delivered
+  accepted : s'.accepted = s.accepted
+  split : s'.written ++ s'.pend = s.written ++ s.pend
+  fromApp : s'.cnt.fromApp = s.cnt.fromApp
+  toApp : s'.cnt.toApp = s.cnt.toApp
+  fromLower : s'.cnt.fromLower = s.cnt.fromLower
+  toLower : s'.cnt.toLower + s.written.length = s.cnt.toLower + s'.written.length
+  state : s'.state = s.state ∨ s'.state = .closed ∨ ∃ x, s'.state = .bad x
 
-theorem send_inv {s : St} (hi : Inv s) (buf : Bytes) (h : HAns) (w : WAns) : Inv (send s buf h w).1 := by
+theorem core_of_frame {s s' : St} (f : Frame s s') : Core s s' :=
+  ⟨f.auth, f.hd, f.verdict, f.delivered, f.accepted, by rw [f.written, f.pend], by rw [f.cnt], by rw [f.cnt], by rw [f.cnt],
+   by rw [f.cnt, f.written], f.state⟩
+
+theorem Core.trans {a b c : St} (h1 : Core a b) (h2 : Core b c) : Core a c := by
+  refine ⟨h2.auth.trans h1.auth, h2.hd.trans h1.hd, h2.verdict.trans h1.verdict, h2.delivered.trans h1.delivered,
+    h2.accepted.trans h1.accepted, h2.split.trans h1.split, h2.fromApp.trans h1.fromApp, h2.toApp.trans h1.toApp,
+    h2.fromLower.trans h1.fromLower, ?_, ?_⟩
+  · have := h1.toLower; have := h2.toLower; omega
+  · rcases h2.state with h | h | h
+    · rw [h]; exact h1.state
+    · exact Or.inr (Or.inl h)
+    · exact Or.inr (Or.inr h)
+
+theorem inv_core {s s' : St} (h : Inv s) (c : Core s s') (hn : s.state ≠ .handshaking) : Inv s' := by
+  have hv : Verified s → Verified s' := verified_of_fields c.auth c.hd c.verdict
+  have hacc := h.acc
+  constructor
+  · intro hr
+    rcases c.state with st | st | ⟨x, st⟩
+    · exact hv (h.readyVerified (st ▸ hr))
+    · rw [st] at hr; cases hr
+    · rw [st] at hr; cases hr
+  · intro hio
+    apply hv
+    apply h.ioVerified
+    rcases hio with hw | hd | ha
+    · right; right
+      rw [hacc, ← c.split]
+      intro he
+      apply hw
+      exact (List.append_eq_nil_iff.mp he).1
+    · right; left; rw [← c.delivered]; exact hd
+    · right; right; rw [← c.accepted]; exact ha
+  · intro hh
+    rcases c.state with st | st | ⟨x, st⟩
+    · exact absurd (st ▸ hh) hn
+    · rw [st] at hh; cases hh
+    · rw [st] at hh; cases hh
+  · rw [c.accepted, c.split]; exact hacc
+  · refine ⟨by rw [c.fromApp, c.accepted]; exact h.cntW.1, ?_⟩
+    have := c.toLower; have := h.cntW.2; omega
+  · exact ⟨by rw [c.toApp, c.delivered]; exact h.cntD.1, by rw [c.fromLower, c.delivered]; exact h.cntD.2⟩
+
+/-- `try_flush_pending_write`: nothing accepted is lost or reordered; when it reports success nothing is retained -/
+theorem flush_core (fuel : Nat) : ∀ (s : St) (ws : List WAns),
+    Core s (flushPending fuel s ws).1 ∧
+    ((flushPending fuel s ws).2.1 = none → s.pend.length < fuel → (flushPending fuel s ws).1.pend = [] ∧ (flushPending fuel s ws).1.state = s.state) := by
+  induction fuel with
+  | zero => intro s ws; exact ⟨core_of_frame (Frame.refl s), fun _ h => absurd h (Nat.not_lt_zero _)⟩
+  | succ f ih =>
+    intro s ws
+    unfold flushPending
+    by_cases he : s.pend.isEmpty = true
+    · rw [if_pos he]
+      exact ⟨core_of_frame (Frame.refl s), fun _ _ => ⟨List.isEmpty_iff.mp he, rfl⟩⟩
+    · rw [if_neg he]
+      have hne : s.pend ≠ [] := fun h => he (by rw [h]; rfl)
+      have hlen : 0 < s.pend.length := List.length_pos_iff.mpr hne
+      cases hw : nextW ws with
+      | mk w rest =>
+        cases w with
+        | n k =>
+          simp only
+          have hstep : Core s (flushStep s (max 1 (min k s.pend.length))) := by
+            refine ⟨rfl, rfl, rfl, rfl, rfl, ?_, rfl, rfl, rfl, ?_, Or.inl rfl⟩
+            · simp only [flushStep, List.append_assoc, List.take_append_drop]
+            · simp only [flushStep, List.length_append, List.length_take]; omega
+          have r := ih (flushStep s (max 1 (min k s.pend.length))) rest
+          refine ⟨hstep.trans r.1, fun hn hl => ?_⟩
+          have hd : (flushStep s (max 1 (min k s.pend.length))).pend.length < f := by
+            simp only [flushStep, List.length_drop]; omega
+          have := r.2 hn hd
+          exact ⟨this.1, this.2⟩
+        | zero =>
+          simp only
+          exact ⟨⟨rfl, rfl, rfl, rfl, rfl, rfl, rfl, rfl, rfl, rfl, Or.inr (Or.inl rfl)⟩, fun hn _ => by cases hn⟩
+        | ev e =>
+          simp only
+          have f := (frame_reset s).trans (frame_pse { s with sslCondition := 0, sslWants := 0 } SENDABLE e)
+          split
+          · exact ⟨core_of_frame f, fun hn _ => by cases hn⟩
+          · exact ⟨core_of_frame f, fun hn _ => by cases hn⟩
+          · exact ⟨core_of_frame (f.trans (frame_pendWants _ _)), fun hn _ => by cases hn⟩
+
+/-- the only results `try_flush_pending_write` reports are errors -/
+theorem flush_res_err (fuel : Nat) : ∀ (s : St) (ws : List WAns) (r : Res), (flushPending fuel s ws).2.1 = some r → ∃ e, r = .err e := by
+  induction fuel with
+  | zero => intro s ws r h; simp [flushPending] at h
+  | succ f ih =>
+    intro s ws r h
+    unfold flushPending at h
+    split at h
+    · cases h
+    · cases hw : nextW ws with
+      | mk w rest =>
+        rw [hw] at h
+        cases w with
+        | n k => simp only at h; exact ih _ _ r h
+        | zero => simp only [Option.some.injEq] at h; exact ⟨_, h.symm⟩
+        | ev e =>
+          simp only at h
+          split at h <;> (simp only [Option.some.injEq] at h; exact ⟨_, h.symm⟩)
+
+theorem send_inv {s : St} (hi : Inv s) (buf : Bytes) (h : HAns) (ws : List WAns) : Inv (send s buf h ws).1 := by
   unfold send
   have h1 := tfh_inv hi h
   generalize tryFinishHandshake s h = s1 at h1
@@ -130,28 +259,103 @@ theorem send_inv {s : St} (hi : Inv s) (buf : Bytes) (h : HAns) (w : WAns) : Inv
   · exact h1
   · exact h1
   · rename_i hr
-    have hv := h1.readyVerified hr
     split
     · exact h1
-    · cases w with
-      | n k =>
-        have cw := h1.cntW
-        have cd := h1.cntD
-        constructor
-        · intro _; exact hv
-        · intro _; exact hv
-        · intro hh; simp [hr] at hh
-        · rename_i hl
-          simp only [List.length_append, List.length_take, cw.1, cw.2]
-          omega
-        · exact cd
-      | zero => exact inv_frame h1 ⟨rfl, rfl, rfl, rfl, rfl, rfl, Or.inr (Or.inl rfl)⟩
-      | ev e =>
+    · have fc := flush_core (s1.pend.length + 1) s1 ws
+      cases hf : flushPending (s1.pend.length + 1) s1 ws with
+      | mk sf rest3 =>
+        obtain ⟨fr, rest, nf⟩ := rest3
+        rw [hf] at fc
+        simp only at fc
+        have hnh : s1.state ≠ .handshaking := by rw [hr]; exact fun x => by cases x
+        have hsf := inv_core h1 fc.1 hnh
         simp only
-        have f := (frame_reset s1).trans (frame_pse { s1 with sslCondition := 0, sslWants := 0 } SENDABLE e)
-        split <;> exact inv_frame h1 f
+        cases fr with
+        | some r => exact hsf
+        | none =>
+          obtain ⟨hp, hst⟩ := fc.2 rfl (Nat.lt_succ_self _)
+          have hsr : sf.state = .ready := hst.trans hr
+          have hv := hsf.readyVerified hsr
+          simp only
+          cases hw : nextW rest with
+          | mk w _ =>
+            cases w with
+            | n k =>
+              simp only
+              have cw := hsf.cntW
+              have cd := hsf.cntD
+              have ha := hsf.acc
+              constructor
+              · intro _; exact hv
+              · intro _; exact hv
+              · intro hh; simp [hsr] at hh
+              · simp only [ha, hp, List.append_nil]
+              · rename_i hl
+                simp only [List.length_append, List.length_take, cw.1, cw.2]
+                omega
+              · exact cd
+            | zero => exact inv_frame hsf ⟨rfl, rfl, rfl, rfl, rfl, rfl, rfl, rfl, Or.inr (Or.inl rfl)⟩
+            | ev e =>
+              simp only
+              have f := (frame_reset sf).trans (frame_pse { sf with sslCondition := 0, sslWants := 0 } SENDABLE e)
+              split
+              · exact inv_frame hsf f
+              · exact inv_frame hsf f
+              · rename_i hnc hnb
+                -- the would-block case: a record's worth of the buffer is retained and counted as accepted
+                have h3 := inv_frame hsf f
+                have st3 : (processSslEvent { sf with sslCondition := 0, sslWants := 0 } SENDABLE e).state = .ready := by
+                  rcases f.state with st | st | ⟨x, st⟩
+                  · exact st.trans hsr
+                  · exact absurd st hnc
+                  · exact absurd st (hnb x)
+                generalize processSslEvent { sf with sslCondition := 0, sslWants := 0 } SENDABLE e = s3 at h3 f st3
+                have hv3 := h3.readyVerified st3
+                have p3 : s3.pend = [] := f.pend.trans hp
+                have cw := h3.cntW
+                have cd := h3.cntD
+                have ha := h3.acc
+                constructor
+                · intro _; exact hv3
+                · intro _; exact hv3
+                · intro hh; simp [st3] at hh
+                · simp only [ha, p3, List.append_nil, List.append_assoc]
+                · simp only [List.length_append, List.length_take, cw.1, cw.2]
+                  refine ⟨?_, trivial⟩
+                  omega
+                · exact cd
 
-theorem receive_inv {s : St} (hi : Inv s) (cap : Nat) (h : HAns) (r : RAns) : Inv (receive s cap h r).1 := by
+theorem readStep_inv {sf : St} (h1 : Inv sf) (hr : sf.state = .ready) (cap : Nat) (r : RAns) : Inv (readStep sf cap r).1 := by
+  unfold readStep
+  have hv := h1.readyVerified hr
+  cases r with
+  | data bs =>
+    simp only
+    split
+    · exact inv_frame h1 (frame_reset sf)
+    · have cw := h1.cntW
+      have cd := h1.cntD
+      constructor
+      · intro _; exact hv
+      · intro _; exact hv
+      · intro hh; simp [hr] at hh
+      · exact h1.acc
+      · exact cw
+      · simp [List.length_append, cd.1, cd.2]
+  | ev e =>
+    simp only
+    have f := (frame_reset sf).trans (frame_pse { sf with sslCondition := 0, sslWants := 0 } RECEIVABLE e)
+    split <;> exact inv_frame h1 f
+
+/-- after the flush a ready connection is ready or terminal -/
+theorem flush_state (fuel : Nat) (s : St) (ws : List WAns) (hr : s.state = .ready) :
+    (flushPending fuel s ws).1.state = .ready ∨ Terminal (flushPending fuel s ws).1 := by
+  rcases (flush_core fuel s ws).1.state with st | st | ⟨x, st⟩
+  · exact Or.inl (st.trans hr)
+  · exact Or.inr (Or.inl st)
+  · exact Or.inr (Or.inr ⟨x, st⟩)
+
+theorem receive_inv {s : St} (hi : Inv s) (cap : Nat) (h : HAns) (ws : List WAns) (r : RAns) : Inv (receive s cap h ws r).1 := by
   unfold receive
   have h1 := tfh_inv hi h
   generalize tryFinishHandshake s h = s1 at h1
@@ -161,48 +365,61 @@ theorem receive_inv {s : St} (hi : Inv s) (cap : Nat) (h : HAns) (r : RAns) : In
   · exact h1
   · exact h1
   · rename_i hr
-    have hv := h1.readyVerified hr
-    cases r with
-    | data bs =>
-      simp only
+    have fc := flush_core (s1.pend.length + 1) s1 ws
+    have fs := flush_state (s1.pend.length + 1) s1 ws hr
+    cases hf : flushPending (s1.pend.length + 1) s1 ws with
+    | mk sf rest3 =>
+      obtain ⟨fr, rest, nf⟩ := rest3
+      rw [hf] at fc fs
+      have hnh : s1.state ≠ .handshaking := by rw [hr]; exact fun x => by cases x
+      have hsf := inv_core h1 fc.1 hnh
+      simp only at fs ⊢
       split
-      · exact inv_frame h1 (frame_reset s1)
-      · have cw := h1.cntW
-        have cd := h1.cntD
-        constructor
-        · intro _; exact hv
-        · intro _; exact hv
-        · intro hh; simp [hr] at hh
-        · exact cw
-        · simp [List.length_append, cd.1, cd.2]
-    | ev e =>
-      simp only
-      have f := (frame_reset s1).trans (frame_pse { s1 with sslCondition := 0, sslWants := 0 } RECEIVABLE e)
-      split <;> exact inv_frame h1 f
+      · exact hsf
+      · exact hsf
+      · rename_i hnb hnc
+        rcases fs with fs | fs | ⟨x, fs⟩
+        · exact readStep_inv hsf fs cap r
+        · exact absurd fs hnc
+        · exact absurd fs (hnb x)
 
-theorem finish_inv {s : St} (hi : Inv s) (h : HAns) (l : Option Nat) : Inv (finish s h l).1 := by
+theorem finish_inv {s : St} (hi : Inv s) (h : HAns) (ws : List WAns) (l : Option Nat) : Inv (finish s h ws l).1 := by
   unfold finish
   have h1 := tfh_inv hi h
   generalize tryFinishHandshake s h = s1 at h1
   simp only
-  split <;> exact h1
+  split
+  · exact h1
+  · rename_i hr
+    have fc := flush_core (s1.pend.length + 1) s1 ws
+    cases hf : flushPending (s1.pend.length + 1) s1 ws with
+    | mk sf rest3 =>
+      obtain ⟨fr, rest, nf⟩ := rest3
+      rw [hf] at fc
+      have hnh : s1.state ≠ .handshaking := by rw [hr]; exact fun x => by cases x
+      have hsf := inv_core h1 fc.1 hnh
+      simp only
+      cases fr <;> exact hsf
+  · exact h1
+  · exact h1
 
 /-- the handshake step moves no application data -/
 theorem tfh_data (s : St) (a : HAns) :
     (tryFinishHandshake s a).written = s.written ∧ (tryFinishHandshake s a).delivered = s.delivered ∧
-    (tryFinishHandshake s a).auth = s.auth := by
+    (tryFinishHandshake s a).auth = s.auth ∧ (tryFinishHandshake s a).accepted = s.accepted ∧
+    (tryFinishHandshake s a).pend = s.pend := by
   unfold tryFinishHandshake
   split
-  · exact ⟨rfl, rfl, rfl⟩
+  · exact ⟨rfl, rfl, rfl, rfl, rfl⟩
   · cases a with
     | ev e =>
       have f := (frame_reset s).trans (frame_pse { s with sslCondition := 0, sslWants := 0 } 0 e)
-      exact ⟨f.written, f.delivered, f.auth⟩
+      exact ⟨f.written, f.delivered, f.auth, f.accepted, f.pend⟩
     | done cert =>
       simp only
       split
-      · cases cert <;> exact ⟨rfl, rfl, rfl⟩
-      · exact ⟨rfl, rfl, rfl⟩
+      · cases cert <;> exact ⟨rfl, rfl, rfl, rfl, rfl⟩
+      · exact ⟨rfl, rfl, rfl, rfl, rfl⟩
 
 theorem tfh_terminal {s : St} (h : Terminal s) (a : HAns) : tryFinishHandshake s a = s := by
   unfold tryFinishHandshake
@@ -213,8 +430,8 @@ theorem step_terminal {s : St} (h : Terminal s) (op : Op) : step s op = s := by
   cases op with
   | hs a => exact tfh_terminal h a
   | send b a w => simp only [step, send, tfh_terminal h a]; rcases h with h | ⟨e, h⟩ <;> simp [h]
-  | recv c a r => simp only [step, receive, tfh_terminal h a]; rcases h with h | ⟨e, h⟩ <;> simp [h]
-  | fin a l => simp only [step, finish, tfh_terminal h a]; rcases h with h | ⟨e, h⟩ <;> simp [h]
+  | recv c a ws r => simp only [step, receive, tfh_terminal h a]; rcases h with h | ⟨e, h⟩ <;> simp [h]
+  | fin a w l => simp only [step, finish, tfh_terminal h a]; rcases h with h | ⟨e, h⟩ <;> simp [h]
 
 theorem run_terminal (ops : List Op) {s : St} (h : Terminal s) : run s ops = s := by
   induction ops with
@@ -225,8 +442,8 @@ theorem step_inv {s : St} (hi : Inv s) (op : Op) : Inv (step s op) := by
   cases op with
   | hs h => exact tfh_inv hi h
   | send b h w => exact send_inv hi b h w
-  | recv c h r => exact receive_inv hi c h r
-  | fin h l => exact finish_inv hi h l
+  | recv c h ws r => exact receive_inv hi c h ws r
+  | fin h w l => exact finish_inv hi h w l
 
 theorem run_inv (ops : List Op) {s : St} (hi : Inv s) : Inv (run s ops) := by
   induction ops generalizing s with
@@ -245,11 +462,19 @@ def HOk : HAns → Prop
   | .ev e => EvOk e
   | _ => True
 
+def WOk : WAns → Prop
+  | .ev e => EvOk e
+  | _ => True
+
+def ROk : RAns → Prop
+  | .ev e => EvOk e
+  | _ => True
+
 def OpOk : Op → Prop
   | .hs h => HOk h
-  | .send _ h w => HOk h ∧ (match w with | .ev e => EvOk e | _ => True)
-  | .recv _ h r => HOk h ∧ (match r with | .ev e => EvOk e | _ => True)
-  | .fin h _ => HOk h
+  | .send _ h ws => HOk h ∧ ∀ w ∈ ws, WOk w
+  | .recv _ h ws r => HOk h ∧ (∀ w ∈ ws, WOk w) ∧ ROk r
+  | .fin h ws _ => HOk h ∧ ∀ w ∈ ws, WOk w
 
 def isRS (n : Nat) : Prop := n = RECEIVABLE ∨ n = SENDABLE
 
@@ -324,8 +549,49 @@ theorem pse_winv_ready (s1 : St) (c : Nat) (e : SslEv) (hc : isRS c) (he : EvOk 
   · cases h
   · cases h
 
-theorem send_winv {s : St} (hi : WInv s) (buf : Bytes) (h : HAns) (w : WAns) (ho : OpOk (.send buf h w)) :
-    WInv (send s buf h w).1 := by
+theorem nextW_ok (ws : List WAns) (h : ∀ w ∈ ws, WOk w) : WOk (nextW ws).1 ∧ ∀ w ∈ (nextW ws).2, WOk w := by
+  cases ws with
+  | nil => exact ⟨trivial, fun w hw => by cases hw⟩
+  | cons a t => exact ⟨h a List.mem_cons_self, fun w hw => h w (List.mem_cons_of_mem _ hw)⟩
+
+/-- a ready state whose wait bookkeeping is reset satisfies WInv -/
+theorem winv_reset_ready (s : St) (hr : s.state = .ready) (ha : s.aborted = false) (hc : s.sslCondition = 0) : WInv s :=
+  ⟨(by intro h; rw [hr] at h; cases h), fun h => absurd hc h, ha⟩
+
+theorem flush_winv (fuel : Nat) : ∀ (s : St) (ws : List WAns), WInv s → s.state = .ready → (∀ w ∈ ws, WOk w) →
+    WInv (flushPending fuel s ws).1 ∧ (∀ w ∈ (flushPending fuel s ws).2.2.1, WOk w) ∧
+    ((flushPending fuel s ws).2.1 = none → (flushPending fuel s ws).1.state = .ready) := by
+  induction fuel with
+  | zero => intro s ws hi hr hw; exact ⟨hi, hw, fun _ => hr⟩
+  | succ f ih =>
+    intro s ws hi hr hw
+    unfold flushPending
+    split
+    · exact ⟨hi, hw, fun _ => hr⟩
+    · have nw := nextW_ok ws hw
+      cases hn : nextW ws with
+      | mk w rest =>
+        rw [hn] at nw
+        cases w with
+        | n k =>
+          simp only
+          have h1 : WInv (flushStep s (max 1 (min k s.pend.length))) :=
+            winv_reset_ready _ hr hi.noAbort rfl
+          have r := ih (flushStep s (max 1 (min k s.pend.length))) rest h1 hr nw.2
+          exact ⟨r.1, r.2.1, r.2.2⟩
+        | zero =>
+          simp only
+          exact ⟨⟨(by intro h; cases h), fun h => absurd rfl h, hi.noAbort⟩, nw.2, (by intro h; cases h)⟩
+        | ev e =>
+          simp only
+          have p := pse_winv_ready s SENDABLE e (Or.inr rfl) nw.1 hi.noAbort hr
+          split
+          · exact ⟨p, nw.2, (by intro h; cases h)⟩
+          · exact ⟨p, nw.2, (by intro h; cases h)⟩
+          · exact ⟨⟨p.hsWants, p.condWants, p.noAbort⟩, nw.2, (by intro h; cases h)⟩
+
+theorem send_winv {s : St} (hi : WInv s) (buf : Bytes) (h : HAns) (ws : List WAns) (ho : OpOk (.send buf h ws)) :
+    WInv (send s buf h ws).1 := by
   have h1 := tfh_winv hi h ho.1
   have hw := ho.2
   unfold send
@@ -338,18 +604,49 @@ theorem send_winv {s : St} (hi : WInv s) (buf : Bytes) (h : HAns) (w : WAns) (ho
   · rename_i hr
     split
     · exact h1
-    · cases w with
-      | n k => exact ⟨(by intro h; simp [hr] at h), fun h => absurd rfl h, h1.noAbort⟩
-      | zero => exact ⟨(by intro h; cases h), fun h => absurd rfl h, h1.noAbort⟩
-      | ev e =>
-        simp only
-        have p := pse_winv_ready s1 SENDABLE e (Or.inr rfl) hw h1.noAbort hr
-        split <;> exact p
+    · have fw := flush_winv (s1.pend.length + 1) s1 ws h1 hr hw
+      cases hf : flushPending (s1.pend.length + 1) s1 ws with
+      | mk sf rest3 =>
+        obtain ⟨fr, rest, nf⟩ := rest3
+        rw [hf] at fw
+        simp only at fw ⊢
+        cases fr with
+        | some r => exact fw.1
+        | none =>
+          have hsr := fw.2.2 rfl
+          have nw := nextW_ok rest fw.2.1
+          simp only
+          cases hn : nextW rest with
+          | mk w _ =>
+            rw [hn] at nw
+            cases w with
+            | n k => exact ⟨(by intro h; simp [hsr] at h), fun h => absurd rfl h, fw.1.noAbort⟩
+            | zero => exact ⟨(by intro h; cases h), fun h => absurd rfl h, fw.1.noAbort⟩
+            | ev e =>
+              simp only
+              have p := pse_winv_ready sf SENDABLE e (Or.inr rfl) nw.1 fw.1.noAbort hsr
+              split
+              · exact p
+              · exact p
+              · exact ⟨p.hsWants, p.condWants, p.noAbort⟩
 
-theorem receive_winv {s : St} (hi : WInv s) (cap : Nat) (h : HAns) (r : RAns) (ho : OpOk (.recv cap h r)) :
-    WInv (receive s cap h r).1 := by
+theorem readStep_winv {sf : St} (h1 : WInv sf) (hr : sf.state = .ready) (cap : Nat) (r : RAns) (hw : ROk r) :
+    WInv (readStep sf cap r).1 := by
+  unfold readStep
+  cases r with
+  | data bs =>
+    simp only
+    split
+    · exact ⟨(by intro h; simp [hr] at h), fun h => absurd rfl h, h1.noAbort⟩
+    · exact ⟨(by intro h; simp [hr] at h), fun h => absurd rfl h, h1.noAbort⟩
+  | ev e =>
+    simp only
+    have p := pse_winv_ready sf RECEIVABLE e (Or.inl rfl) hw h1.noAbort hr
+    split <;> exact p
+
+theorem receive_winv {s : St} (hi : WInv s) (cap : Nat) (h : HAns) (ws : List WAns) (r : RAns) (ho : OpOk (.recv cap h ws r)) :
+    WInv (receive s cap h ws r).1 := by
   have h1 := tfh_winv hi h ho.1
-  have hw := ho.2
   unfold receive
   generalize tryFinishHandshake s h = s1 at h1
   simp only
@@ -358,30 +655,47 @@ theorem receive_winv {s : St} (hi : WInv s) (cap : Nat) (h : HAns) (r : RAns) (h
   · exact h1
   · exact h1
   · rename_i hr
-    cases r with
-    | data bs =>
-      simp only
+    have fw := flush_winv (s1.pend.length + 1) s1 ws h1 hr ho.2.1
+    have fs := flush_state (s1.pend.length + 1) s1 ws hr
+    cases hf : flushPending (s1.pend.length + 1) s1 ws with
+    | mk sf rest3 =>
+      obtain ⟨fr, rest, nf⟩ := rest3
+      rw [hf] at fw fs
+      simp only at fs ⊢
       split
-      · exact ⟨(by intro h; simp [hr] at h), fun h => absurd rfl h, h1.noAbort⟩
-      · exact ⟨(by intro h; simp [hr] at h), fun h => absurd rfl h, h1.noAbort⟩
-    | ev e =>
-      simp only
-      have p := pse_winv_ready s1 RECEIVABLE e (Or.inl rfl) hw h1.noAbort hr
-      split <;> exact p
+      · exact fw.1
+      · exact fw.1
+      · rename_i hnb hnc
+        rcases fs with fs | fs | ⟨x, fs⟩
+        · exact readStep_winv fw.1 fs cap r ho.2.2
+        · exact absurd fs hnc
+        · exact absurd fs (hnb x)
 
-theorem finish_winv {s : St} (hi : WInv s) (h : HAns) (l : Option Nat) (ho : HOk h) : WInv (finish s h l).1 := by
-  have h1 := tfh_winv hi h ho
+theorem finish_winv {s : St} (hi : WInv s) (h : HAns) (ws : List WAns) (l : Option Nat) (ho : OpOk (.fin h ws l)) :
+    WInv (finish s h ws l).1 := by
+  have h1 := tfh_winv hi h ho.1
   unfold finish
   generalize tryFinishHandshake s h = s1 at h1
   simp only
-  split <;> exact h1
+  split
+  · exact h1
+  · rename_i hr
+    have fw := flush_winv (s1.pend.length + 1) s1 ws h1 hr ho.2
+    cases hf : flushPending (s1.pend.length + 1) s1 ws with
+    | mk sf rest3 =>
+      obtain ⟨fr, rest, nf⟩ := rest3
+      rw [hf] at fw
+      simp only
+      cases fr <;> exact fw.1
+  · exact h1
+  · exact h1
 
 theorem step_winv {s : St} (hi : WInv s) (op : Op) (ho : OpOk op) : WInv (step s op) := by
   cases op with
   | hs h => exact tfh_winv hi h ho
   | send b h w => exact send_winv hi b h w ho
-  | recv c h r => exact receive_winv hi c h r ho
-  | fin h l => exact finish_winv hi h l ho
+  | recv c h ws r => exact receive_winv hi c h ws r ho
+  | fin h w l => exact finish_winv hi h w l ho
 
 theorem run_winv (ops : List Op) {s : St} (hi : WInv s) (ho : ∀ op ∈ ops, OpOk op) : WInv (run s ops) := by
   induction ops generalizing s with
@@ -392,5 +706,17 @@ theorem run_winv (ops : List Op) {s : St} (hi : WInv s) (ho : ∀ op ∈ ops, Op
 /-- a connection as `btls_connect`/`btls_accept` leave it: the handshake has been entered and attempted once -/
 theorem entered_winv (auth : Bool) (h : HAns) (ho : HOk h) : WInv (tryFinishHandshake { auth := auth } h) :=
   tfh_winv_of_hs h ho rfl rfl
+
+/-- the retained-output addition to `conn_update` changes neither the bell, nor whether the TCP socket below is
+updated, nor the assertion; it can only add to what the TCP socket is watched for -/
+theorem connUpdate_core (s : St) (cond : Nat) (hp : Bool) :
+    (connUpdate s cond hp).1 = (connUpdateCore s cond hp).1 ∧
+    (connUpdate s cond hp).2.2 = (connUpdateCore s cond hp).2.2 ∧
+    ((connUpdateCore s cond hp).2.1 ≠ 0 → (connUpdate s cond hp).2.1 ≠ 0) := by
+  unfold connUpdate
+  simp only
+  split
+  · refine ⟨rfl, rfl, fun h h2 => h (Nat.or_eq_zero_iff.mp h2).1⟩
+  · exact ⟨rfl, rfl, id⟩
 
 end XcmModel.Btls
